@@ -222,7 +222,15 @@ class Gen:
                 n = r.randint(*p["tick_run"])
                 if r.random() < 0.3:
                     n = r.randint(1, 3)
-                self.emit("tick %d" % n)
+                # callbacks that keep scheduling endless streams let the track count grow with every tick: long tick
+                # runs are emitted in slices and cut short once the timeline is crowded (a slow history is not a hang)
+                while n > 0 and not self.runner.dead:
+                    m = min(n, 25)
+                    if len(self.runner.tl.tracks) > 48:
+                        m = min(m, 3)
+                        n = m
+                    self.emit("tick %d" % m)
+                    n -= m
             else:
                 ow = p["op_weights"]
                 kinds = [k for k, w in ow.items() if w > 0]
